@@ -190,3 +190,22 @@ Proof.
   intros H. unfold step, over_budget. rewrite H.
   destruct (window_expired s now); reflexivity.
 Qed.
+
+(* the start-up burst limiter (budget ten per slot, any window length w >= 1 in clock units): within
+   one window exactly 10 * slots restarts are admitted and the next one raises *)
+Theorem startup_burst_budget slots w t0 nows now_last :
+  1 <= slots -> t0 <> 0 ->
+  (forall n, In n (nows ++ [now_last]) -> n - t0 < w) ->
+  Z.of_nat (length nows) = 10 * slots - 1 ->
+  steps (burst_state slots w) (t0 :: nows ++ [now_last]) =
+  (mk_rs 0 (Some t0) (Some (10 * slots)) w, repeat false (S (length nows)) ++ [true]).
+Proof.
+  intros Hs Ht Hw Hlen. unfold burst_state. cbn [steps]. rewrite first_step_opens.
+  pose proof (window_budget (10 * slots) (mk_rs 1 (Some t0) (Some (10 * slots)) w) nows now_last) as B.
+  rewrite B.
+  - reflexivity.
+  - lia.
+  - unfold Inv; cbn [maxR R]; split; [reflexivity|lia].
+  - intros n Hn. unfold in_window; cbn [T maxT]. split; [exact Ht|exact (Hw n Hn)].
+  - cbn [R]. lia.
+Qed.
